@@ -177,7 +177,13 @@ func runE2EScenario(seed int64) (tv.Trace, string) {
 	}
 	problem := ""
 	var pmu sync.Mutex
-	setProblem := func(s string) { pmu.Lock(); if problem == "" { problem = s }; pmu.Unlock() }
+	setProblem := func(s string) {
+		pmu.Lock()
+		if problem == "" {
+			problem = s
+		}
+		pmu.Unlock()
+	}
 	var wg sync.WaitGroup
 	var counter int
 	var published []abs.Event
